@@ -11,6 +11,7 @@ corpus/C07/refused-then-driver.case.)
 import NV.C07.Model
 import NV.C07.Compress
 import NV.C07.Binary
+import NV.C07.LemmasReuse
 
 namespace NV.C07.Witness
 
@@ -113,6 +114,43 @@ theorem temp_instead_of_inverse_misdispatches :
     (slotEntry (permuteBad P3 [2, 0, 1]) 0).map (·.nameStr) = some "b" ∧
     (slotEntry (permuteProgram P3 [2, 0, 1]) 0).map (·.nameStr) = some "a" ∧
     (slotEntry (permuteBad P3 [2, 1, 0]) 0).map (·.nameStr) = some "a" := by
+  decide
+
+/-! ### the hit test of apply_low without `entry->id == progp->id_number` -/
+
+def cacheLookupNoId (c : Cache) (ix obProg : Nat) (name : NameKey) : Option CacheEntry :=
+  match c[ix]? with
+  | some (some e) => if e.oprogp == obProg && e.name == name then some e else none
+  | _ => none
+
+def applyLowNoId (w : World) (c : Cache) (origin obProg : Nat) (ptr : Nat) (name : NameKey) : ApplyRes × Cache :=
+  match w.progs[obProg]? with
+  | none => (.crash, c)
+  | some P =>
+    let ix := slotOf P.id ptr
+    match cacheLookupNoId c ix obProg name with
+    | some e =>
+      match e.progp with
+      | some (q, k, fio, vio) => (enter w origin obProg q k fio vio, c)
+      | none => (.fail, c)
+    | none => applyMiss w c origin obProg P.id ix name
+
+/-- the program that is allocated at address 0 after `w0`'s program has been freed: another id, and the name `1` is
+    not a function of it (its only function is `2`) -/
+def pNew : Program := { name := "q0", id := 9, nvt := 1, nvd := 1, ft := [{ name := 2, rindex := 0 }], flags := [0],
+                        rt := [.defn 0 0], inherit := [] }
+
+/-- a driver apply of `1` caches (id 3, address 0, `1`); the program is freed and `pNew` gets its address.  A call of
+    `1` through a string whose pointer happens to hash to the old slot: without the id test the stale entry answers
+    (function `1` of a program that no longer exists "runs"), with it the call fails as on an empty cache — the
+    instance of `cache_transparent_across_reuse`. -/
+theorem no_id_test_answers_from_a_freed_program :
+    let c := (applyLow w0 Cache.empty originDriver 0 1 1).2
+    let w' := reuse w0 0 pNew
+    slotOf 9 11 = slotOf 3 1 ∧
+    (applyLowNoId w' c originDriver 0 11 1).1 = .call 0 0 0 0 ∧
+    (applyLow w' c originDriver 0 11 1).1 = .fail ∧
+    (applyLow w' Cache.empty originDriver 0 11 1).1 = .fail := by
   decide
 
 end NV.C07.Witness
